@@ -111,6 +111,16 @@ structure DState where
   maxItems : Nat := 0
   maxDepth : Nat := 0
   nRecords : Nat := 0
+  /-- independent specification of the item store, replayed over the op list from the implementation's own
+      answers: (index, id) ↦ the vector as written (f32 bit patterns) -/
+  spec : List ((Nat × Nat) × List Nat) := []
+  specAtBegin : List ((Nat × Nat) × List Nat) := []
+  /-- per index: (built since the last metric change?, effective mutation since the last successful build?) -/
+  fresh : List (Nat × Bool × Bool) := []
+  freshAtBegin : List (Nat × Bool × Bool) := []
+  nSpecChecks : Nat := 0
+  /-- the database was loaded from raw pairs: the replayed specification does not know its content -/
+  specOff : Bool := false
   /-- raw pairs put in the open transaction (`rawput`) -/
   rawPending : Array (Bytes × Bytes) := #[]
   /-- a committed old-layout (v0.4) database, kept as raw pairs -/
@@ -403,6 +413,13 @@ def handleDump (d : DState) : DState := Id.run do
     let inflight := d.committing && (match d.txn with | some t => storeEq t impl | none => false)
     if !(storeEq d.committed impl) && !inflight then
       d := d.prop "C09" s!"recovered state differs from the last committed model state: {firstDiff d.committed impl}"
+    -- what the lost transaction had changed is gone from the replayed specification too
+    if d.txn.isSome && !inflight then
+      let infos := d.infos.map fun (i, info) =>
+        match d.infosAtBegin.find? (·.1 == i) with
+        | some (_, old) => (i, old)
+        | none => (i, info)
+      d := { d with spec := d.specAtBegin, fresh := d.freshAtBegin, infos := infos }
     d := { d with committed := impl, txn := none, committing := false, nRecovered := d.nRecovered + 1 }
   else if d.resync then
     match d.preBuild with
@@ -429,6 +446,124 @@ def handleDump (d : DState) : DState := Id.run do
         d := d.prop "C17" s!"upgraded database differs from the original: {firstDiff (noVer origSt) (noVer impl)}"
   | none => pure ()
   d := storePredicates d impl
+  return d
+
+
+/-! ### the independent item-store / staleness specification (C05, C06) -/
+
+def specGet (d : DState) (index id : Nat) : Option (List Nat) := (d.spec.find? (·.1 == (index, id))).map (·.2)
+def specSet (d : DState) (index id : Nat) (v : List Nat) : DState :=
+  { d with spec := ((index, id), v) :: d.spec.filter (·.1 != (index, id)) }
+def specDel (d : DState) (index id : Nat) : DState := { d with spec := d.spec.filter (·.1 != (index, id)) }
+def specClear (d : DState) (index : Nat) : DState := { d with spec := d.spec.filter (·.1.1 != index) }
+
+def freshGet (d : DState) (index : Nat) : Bool × Bool :=
+  ((d.fresh.find? (·.1 == index)).map (·.2)).getD (false, false)
+def freshSet (d : DState) (index : Nat) (v : Bool × Bool) : DState :=
+  { d with fresh := (index, v) :: d.fresh.filter (·.1 != index) }
+def markDirty (d : DState) (index : Nat) : DState := freshSet d index ((freshGet d index).1, true)
+
+/-- what reading a vector written as `v` must give back under metric `m` -/
+def expectedRead (m : Metric) (dims : Nat) (v : List Nat) : List Nat :=
+  if m.isBq then
+    let signs := v.map (fun x => if x ≥ 2^31 then F32.negOne else F32.one)
+    -- the stored words are padded with cleared bits up to a multiple of 64: they read as -1.0
+    (signs ++ List.replicate ((64 - v.length % 64) % 64) F32.negOne).take dims
+  else v.take dims
+
+/-- update the specification from the implementation's OWN answer to a write op, and judge its read answers -/
+def specStep (d : DState) (op : String) (c0 : Cfg) (rest res : List String) : DState := Id.run do
+  let mut d := d
+  let idx := c0.index
+  -- a reader takes its dimension from the metadata (what the index was built with), a writer from its argument
+  let c : Cfg := if op.startsWith "r" then { c0 with dims := ((d.info idx).map (·.dims)).getD c0.dims } else c0
+  match op with
+  | "add" | "append" =>
+    match rest[0]? >>= parseNat?, rest[1]? >>= parseVec? with
+    | some id, some v =>
+      if res == ["ok"] then
+        d := markDirty (specSet d idx id v) idx
+        if v.length != c.dims then d := d.prop "C19" s!"{op} of a vector of length {v.length} accepted by an index of dimension {c.dims}"
+      else if v.length != c.dims && res != ["err", "dim", toString c.dims, toString v.length] then
+        d := d.prop "C19" s!"{op} with a wrong length answered {res}"
+    | _, _ => pure ()
+  | "del" =>
+    match rest[0]? >>= parseNat? with
+    | some id =>
+      let present := (specGet d idx id).isSome
+      d := { d with nSpecChecks := d.nSpecChecks + 1 }
+      if res != ["ok", boolStr present] then
+        d := d.prop "C05" s!"del {id} on index {idx} answered {res} but the item was {if present then "present" else "absent"}"
+      if res == ["ok", "1"] then d := markDirty (specDel d idx id) idx
+    | none => pure ()
+  | "clear" => if res == ["ok"] then d := freshSet (specClear d idx) idx (false, true)
+  | "prepare" =>
+    match rest[0]? >>= parseMetric? with
+    | some m' =>
+      if res == ["ok"] && m' != c.metric then
+        d := freshSet d idx (false, true)
+        -- the items are re-encoded from what the old metric reads back
+        d := { d with spec := d.spec.map fun p => if p.1.1 == idx then (p.1, expectedRead c.metric c.dims p.2) else p }
+    | none => pure ()
+  | "build" => if res.headD "" == "ok" then d := freshSet d idx (true, false)
+  | "get" | "rget" =>
+    match rest[0]? >>= parseNat? with
+    | some id =>
+      if res.headD "" == "ok" then
+        d := { d with nSpecChecks := d.nSpecChecks + 1 }
+        let want := match specGet d idx id with
+          | some v => s!"ok {vecStr (expectedRead c.metric c.dims v)}"
+          | none => "ok none"
+        if " ".intercalate res != want then
+          d := d.prop "C05" s!"{op} {id} on index {idx} ({metricToken c.metric}) answered [{" ".intercalate res}] but the last write gives [{want}]"
+    | none => pure ()
+  | "contains" | "rcontains" =>
+    match rest[0]? >>= parseNat? with
+    | some id =>
+      if res.headD "" == "ok" then
+        d := { d with nSpecChecks := d.nSpecChecks + 1 }
+        if res != ["ok", boolStr (specGet d idx id).isSome] then
+          d := d.prop "C05" s!"{op} {id} on index {idx} answered {res}"
+    | none => pure ()
+  | "iter" | "riter" =>
+    if res.headD "" == "ok" then
+      d := { d with nSpecChecks := d.nSpecChecks + 1 }
+      let mine := (d.spec.filter (·.1.1 == idx)).map (fun p => (p.1.2, expectedRead c.metric c.dims p.2))
+      let sorted := mine.mergeSort (fun a b => decide (a.1 ≤ b.1))
+      let want := if sorted.isEmpty then "ok" else s!"ok {iterStr sorted}"
+      if " ".intercalate res != want then
+        d := d.prop "C05" s!"{op} on index {idx} differs from the items written: got [{(" ".intercalate res).take 300}] want [{want.take 300}]"
+  | "isempty" | "risempty" =>
+    if res.headD "" == "ok" then
+      let empty := !(d.spec.any (·.1.1 == idx))
+      if res != ["ok", boolStr empty] then d := d.prop "C05" s!"{op} on index {idx} answered {res}"
+  | "ritemids" =>
+    if res.headD "" == "ok" then
+      let ids := IdSet.ofList ((d.spec.filter (·.1.1 == idx)).map (·.1.2))
+      if res != ["ok", idsStr ids] && !(ids.isEmpty && res == ["ok", "-"]) then
+        d := d.prop "C05" s!"item_ids of index {idx} is {res.drop 1} but the stored ids are {ids}"
+  | "needbuild" =>
+    let (built, dirty) := freshGet d idx
+    d := { d with nSpecChecks := d.nSpecChecks + 1 }
+    if res != ["ok", boolStr (!built || dirty)] then
+      d := d.prop "C06" s!"need_build of index {idx} answered {res}: built={built}, effective change since the last build={dirty}"
+  | "open" =>
+    let (built, dirty) := freshGet d idx
+    let sameMetric := ((d.info idx).map (·.metric)) == some c.metric
+    d := { d with nSpecChecks := d.nSpecChecks + 1 }
+    let opened := res.headD "" == "ok"
+    let complaint : Option String :=
+      if !built then
+        (if res.take 2 != ["err", "missingmeta"] then some s!"open of the never-built index {idx} answered {res}" else none)
+      else if !sameMetric then
+        (if res.take 2 != ["err", "unmatching"] then some s!"open of index {idx} under another metric answered {res}" else none)
+      else if dirty then
+        (if res.take 2 != ["err", "needbuild"] then some s!"open of the stale index {idx} answered {res}" else none)
+      else if !opened then some s!"open of the freshly built index {idx} answered {res}" else none
+    match complaint with
+    | some msg => d := d.prop "C06" msg
+    | none => pure ()
+  | _ => pure ()
   return d
 
 /-! ### one operation -/
@@ -475,6 +610,7 @@ def handleOp (d : DState) (p : Pending) (res : List String) : DState := Id.run d
   let op := p.toks.headD ""
   let some (c, rest) := parseW d p.toks.tail | return d.diff "unparsable op" "" (" ".intercalate p.toks)
   d := if ["add", "append", "del", "clear", "build", "prepare"].contains op then noteW { d with expectAfterUpgrade := none } c else d
+  d := if !d.specOff then specStep d op c rest res else d
   let s := d.view
   let cmp (d : DState) (model : String) : DState :=
     if model == implStr then d else d.diff s!"result of `{" ".intercalate (p.toks.take 6)}`" model implStr
@@ -843,7 +979,7 @@ def handleRaw (d : DState) (toks res : List String) : DState := Id.run do
     match ofHex k, ofHex v with
     | some kb, some vb =>
       if implStr != "ok" then d := d.diff "rawput" "ok" implStr
-      return { d with rawPending := d.rawPending.push (kb, vb) }
+      return { d with rawPending := d.rawPending.push (kb, vb), specOff := true }
     | _, _ => return d.diff "unparsable rawput" "" (" ".intercalate toks)
   | ["upgrade04to05"] =>
     let some pairs := d.oldLayout | return d.diff "upgrade04to05 without an old-layout database" "" ""
@@ -928,12 +1064,13 @@ def step (d : DState) (line : String) : DState :=
   | "case" :: n :: _ =>
     { d with caseId := (parseNat? n).getD 0, step := 0, committed := [], txn := none, infos := [], pending := none,
              resync := false, preBuild := none, past := [], refs := [], caseFailures := 0, expectRecovered := false,
-             caseBuilds := 0, caseSplits := 0, caseQueries := 0, rawPending := #[], oldLayout := none,
+             caseBuilds := 0, caseSplits := 0, caseQueries := 0, rawPending := #[], oldLayout := none, spec := [], specAtBegin := [],
+             fresh := [], freshAtBegin := [], specOff := false,
              expectAfterUpgrade := none, inExpect := false, versions := #[[]], snapshots := [], inSnapshot := none, committing := false }
   | "host" :: rest =>
     let flag (k : String) := (kv? rest k) == some "1"
     { d with host := { avx := flag "avx", fma := flag "fma", sse := flag "sse" } }
-  | ["begin"] => { d with txn := some d.committed, step := d.step + 1, infosAtBegin := d.infos }
+  | ["begin"] => { d with txn := some d.committed, step := d.step + 1, infosAtBegin := d.infos, specAtBegin := d.spec, freshAtBegin := d.fresh }
   | ["commit"] => handleCommit d
   | ["abort"] =>
     -- what `prepare` and the builds of this transaction changed goes back with it
@@ -941,7 +1078,8 @@ def step (d : DState) (line : String) : DState :=
       match d.infosAtBegin.find? (·.1 == i) with
       | some (_, old) => (i, old)
       | none => (i, { info with capHist := none })
-    { d with txn := none, step := d.step + 1, resync := false, preBuild := none, past := [], infos := infos }
+    { d with txn := none, step := d.step + 1, resync := false, preBuild := none, past := [], infos := infos,
+             spec := d.specAtBegin, fresh := d.freshAtBegin }
   | ["endcase"] => if d.caseFailures == 0 then d.emit s!"CASE {d.caseId} ok steps={d.step} builds={d.caseBuilds} splits={d.caseSplits} queries={d.caseQueries}" else d.emit s!"CASE {d.caseId} FAILED failures={d.caseFailures}"
   | ["expect-after-upgrade"] => { d with inExpect := true, dumpKV := #[] }
   | ["endexpect"] => { d with inExpect := false, expectAfterUpgrade := some d.dumpKV.toList, dumpKV := #[], oldLayout := some [] }
@@ -985,7 +1123,7 @@ def step (d : DState) (line : String) : DState :=
   | [] => d
 
 def statsLine (d : DState) : String :=
-  s!"STAT records={d.nRecords} snapshots={d.nSnapshots} recovered={d.nRecovered} tolerance_checked={d.nTolChecked} ops={d.nOps} builds={d.nBuilds} builds_replayed={d.nBuildsReplayed} builds_loose={d.nBuildsLoose} cancelled_or_failed={d.nCancelled} dumps={d.nDumps} queries={d.nQueries} exact_checked={d.nExact} monotone_pairs={d.nMonotone} self_lookups={d.nSelfLookups} split_nodes_seen={d.nSplits} random_splits_seen={d.nRandomSplits} item_children_seen={d.nItemChildren} routed_pairs={d.nRouted} max_items={d.maxItems} max_depth={d.maxDepth} failures={d.failures}"
+  s!"STAT spec_checks={d.nSpecChecks} records={d.nRecords} snapshots={d.nSnapshots} recovered={d.nRecovered} tolerance_checked={d.nTolChecked} ops={d.nOps} builds={d.nBuilds} builds_replayed={d.nBuildsReplayed} builds_loose={d.nBuildsLoose} cancelled_or_failed={d.nCancelled} dumps={d.nDumps} queries={d.nQueries} exact_checked={d.nExact} monotone_pairs={d.nMonotone} self_lookups={d.nSelfLookups} split_nodes_seen={d.nSplits} random_splits_seen={d.nRandomSplits} item_children_seen={d.nItemChildren} routed_pairs={d.nRouted} max_items={d.maxItems} max_depth={d.maxDepth} failures={d.failures}"
 
 end Driver
 end Arroy
